@@ -16,8 +16,8 @@
    (compared per run), (c) purity -- Gallina functions are pure by construction; the implementation is
    re-run on the same OptionParser and after other operations (driver modes `twice`, `history`). *)
 From Coq Require Import List Arith.
-From BpafModel Require Import Conv Wf Docs Console.
-From BpafLemmas Require Import Tac EvalEq Reach LoopLaws TotalLaws AdjLaws AdjTotal TotalAll AbsSim AbsTotal ConvRefine ConvTotal HtmlLaws BalLaws ConsoleLaws.
+From BpafModel Require Import Conv Wf Docs Console Message.
+From BpafLemmas Require Import Tac EvalEq Reach LoopLaws TotalLaws AdjLaws AdjTotal TotalAll AbsSim AbsTotal ConvRefine ConvTotal HtmlLaws BalLaws ConsoleLaws MessageLaws.
 Import ListNotations.
 
 (* `remaining <= number of items` (and the item-state vector has the length of the item list)
@@ -132,6 +132,22 @@ Theorem C04_console_rendering_returns :
   forall docgen full mw d, render_console docgen full mw d <> None.
 Proof. exact render_console_returns. Qed.
 Print Assumptions C04_console_rendering_returns.
+
+(* error rendering (Message::render, Model/Message.v) indexes the item list by the positions a message
+   records: it returns whenever those positions are items of the line -- `msg_ok`: the unconsumed item, the
+   argument name without a value, the ambiguous cluster (at least two characters), the scopes of missing items
+   inside the ledger with the position not beyond their end (State::set_scope would panic otherwise).
+   PARTIAL: that the evaluator only reports such messages is decided by the differential run (the model's
+   `None` = the library's panic), not proved *)
+Theorem C04_error_rendering_returns_partial :
+  forall msg s, msg_ok (length (items s)) msg -> render_doc (RPlain msg) s <> None.
+Proof. exact render_plain_returns. Qed.
+Print Assumptions C04_error_rendering_returns_partial.
+
+Theorem C04_missing_summary_returns_partial :
+  forall xs m s, Forall (miss_ok (length (ist s))) xs -> summarize_missing xs m s <> None.
+Proof. exact summarize_missing_returns. Qed.
+Print Assumptions C04_missing_summary_returns_partial.
 
 (* the premises are met: a definition with a subcommand, an alternative, repetition and a guard *)
 Example C04_example_oko :
